@@ -15,4 +15,28 @@ FirstDiff(a, b) ==
    and an input on which one front end fails must make the other fail too (no front end turns an error into an empty patch).            *)
 WorkerAgrees(workerLines, devLines) == workerLines = devLines
 SameOutputs(fileCmds, devCmds, fileDiff, devDiff) == fileCmds = devCmds /\ fileDiff = devDiff
+
+(* Design-level model of the two compositions (MC_FrontEnds).  A diff level is a sequence of entries [key, op, row] of ONE rule whose patch
+   logic looks at the whole group of its key -- as the vendor logics for VLAN lists and prefix lists do: when the last line of a key goes
+   away the logic sends one "remove the whole object" command, otherwise one command per changed line.
+     Group(d, k)    the entries of key k (make_pre)
+     Logic(g)       commands for one group
+     Strip(d)       the entries that changed (strip_unchanged)
+   Device mode groups the complete diff and strips afterwards for display; file mode must do the same.  StripFirst = TRUE is the
+   composition file mode had before the repair (strip, then group): the logic no longer sees the unchanged lines of its key.         *)
+Group(d, k) == SelectSeq(d, LAMBDA e : e.key = k)
+KeysInOrder(d) == LET RECURSIVE go(_, _)
+                      go(s, acc) == IF s = <<>> THEN acc
+                                    ELSE go(Tail(s), IF \E i \in DOMAIN acc : acc[i] = Head(s).key THEN acc ELSE Append(acc, Head(s).key))
+                  IN go(d, <<>>)
+Strip(d) == SelectSeq(d, LAMBDA e : e.op # "unchanged")
+Logic(g) ==
+  LET rem == SelectSeq(g, LAMBDA e : e.op = "removed")  add == SelectSeq(g, LAMBDA e : e.op = "added")
+      unch == SelectSeq(g, LAMBDA e : e.op = "unchanged")
+  IN IF rem # <<>> /\ add = <<>> /\ unch = <<>> THEN << <<"undo-object", g[1].key>> >>
+     ELSE [i \in DOMAIN rem |-> <<"undo-line", rem[i].key, rem[i].row>>] \o [i \in DOMAIN add |-> <<"line", add[i].key, add[i].row>>]
+RECURSIVE CmdsOf(_, _)
+CmdsOf(d, ks) == IF ks = <<>> THEN <<>> ELSE Logic(Group(d, Head(ks))) \o CmdsOf(d, Tail(ks))
+DeviceMode(d) == [cmds |-> CmdsOf(d, KeysInOrder(d)), shown |-> Strip(d)]
+FileMode(d, stripFirst) == LET g == IF stripFirst THEN Strip(d) ELSE d IN [cmds |-> CmdsOf(g, KeysInOrder(g)), shown |-> Strip(d)]
 =============================================================================
